@@ -3,6 +3,7 @@
 -/
 import Rend.Proofs.WireLemmas
 import Rend.Wire.TextParse
+import Rend.Proofs.TextLemmas
 
 namespace Rend.Props.C07
 open Rend Rend.Wire
@@ -330,5 +331,383 @@ theorem C07_bin_get_batch (g : GetCmd) (rest : Bytes) (hg : BatchOK g) :
         simp only at hend' hno
         subst hend' hno
         rfl
+
+/-! ### Text protocol -/
+
+theorem storeWord_printable (k : SetKind) : ∀ c ∈ storeWord k, Printable c := by
+  cases k <;> simp [storeWord, wSet, wAdd, wReplace, wAppend, wPrepend, Printable] <;> decide
+
+/-- The request line of a store command, without its CRLF. -/
+def storeLine (k : SetKind) (c : SetCmd) : Bytes :=
+  storeWord k ++ 32 :: (c.key ++ 32 :: (Bytes.decDigits c.flags ++ 32 :: (Bytes.decDigits c.exptime ++ 32 ::
+    Bytes.decDigits c.data.length)))
+
+theorem encodeText_store (k : SetKind) (c : SetCmd) (rest : Bytes) :
+    encodeText (.store k c) ++ rest = (storeLine k c ++ [13]) ++ 10 :: (c.data ++ ([13] ++ 10 :: rest)) := by
+  simp [encodeText, storeLine, sp]
+
+theorem storeLine_split (k : SetKind) (c : SetCmd) (hkey : ∀ b ∈ c.key, Printable b) :
+    splitSpace (storeLine k c) =
+      [storeWord k, c.key, Bytes.decDigits c.flags, Bytes.decDigits c.exptime, Bytes.decDigits c.data.length] := by
+  unfold storeLine
+  rw [splitSpace_cons _ _ (fun b hb => printable_ne_space b (storeWord_printable k b hb))]
+  rw [splitSpace_cons _ _ (fun b hb => printable_ne_space b (hkey b hb))]
+  rw [splitSpace_cons _ _ (fun b hb => printable_ne_space b (digit_printable _ b hb))]
+  rw [splitSpace_cons _ _ (fun b hb => printable_ne_space b (digit_printable _ b hb))]
+  rw [splitSpace_last _ (fun b hb => printable_ne_space b (digit_printable _ b hb))]
+
+theorem storeLine_printable_or_space (k : SetKind) (c : SetCmd) (hkey : ∀ b ∈ c.key, Printable b) :
+    ∀ b ∈ storeLine k c, Printable b ∨ b = 32 := by
+  intro b hb
+  simp only [storeLine, List.mem_append, List.mem_cons] at hb
+  rcases hb with h | h | h | h | h | h | h | h | h
+  · exact Or.inl (storeWord_printable k b h)
+  · exact Or.inr h
+  · exact Or.inl (hkey b h)
+  · exact Or.inr h
+  · exact Or.inl (digit_printable _ b h)
+  · exact Or.inr h
+  · exact Or.inl (digit_printable _ b h)
+  · exact Or.inr h
+  · exact Or.inl (digit_printable _ b h)
+
+/-- Every text store request (key of printable bytes, arbitrary data bytes — CR, LF, 0x80 included,
+    since the data block is length-delimited — all 32-bit flags/TTL/length values) decodes to exactly
+    what was sent, consuming exactly its own bytes. -/
+theorem C07_text_store (k : SetKind) (c : SetCmd) (rest : Bytes)
+    (hkey : ∀ b ∈ c.key, Printable b) (hf : c.flags < 4294967296) (he : c.exptime < 4294967296)
+    (hl : c.data.length < 4294967296) :
+    textParse (encodeText (.store k c) ++ rest) =
+      { cmd := some (.store k { key := c.key, flags := c.flags, exptime := c.exptime, data := c.data }),
+        rt := k.reqType, rest := rest, alloc := c.data.length } := by
+  rw [encodeText_store]
+  unfold textParse
+  have hnolf : ∀ b ∈ storeLine k c ++ [13], b ≠ 10 := by
+    intro b hb
+    rcases List.mem_append.mp hb with h | h
+    · rcases storeLine_printable_or_space k c hkey b h with h | h
+      · exact printable_ne_lf b h
+      · subst h; decide
+    · simp at h; subst h; decide
+  rw [readLine_ok _ _ hnolf]
+  simp only
+  -- the line is storeLine ++ "\r\n"; trimming leaves storeLine
+  have hline : trimSpace (storeLine k c ++ [13] ++ [10]) = storeLine k c := by
+    have hw : storeWord k ≠ [] := by cases k <;> simp [storeWord, wSet, wAdd, wReplace, wAppend, wPrepend]
+    obtain ⟨x, wt, hwx⟩ := List.exists_cons_of_ne_nil hw
+    have hdn := decDigits_ne_nil c.data.length
+    have hlast := List.dropLast_concat_getLast hdn
+    have hx : Printable x := storeWord_printable k x (by rw [hwx]; exact List.mem_cons_self)
+    have hy : Printable ((Bytes.decDigits c.data.length).getLast hdn) :=
+      digit_printable _ _ (List.getLast_mem hdn)
+    have := trimSpace_crlf_gen (storeLine k c) x ((Bytes.decDigits c.data.length).getLast hdn)
+      (wt ++ 32 :: (c.key ++ 32 :: (Bytes.decDigits c.flags ++ 32 :: (Bytes.decDigits c.exptime ++ 32 ::
+        (Bytes.decDigits c.data.length).dropLast)))) (by
+          unfold storeLine
+          rw [hwx]
+          conv => lhs; rw [← hlast]
+          simp) hx hy
+    simpa using this
+  rw [hline, storeLine_split k c hkey]
+  have hwne : ∀ w, storeWord k = w → True := fun _ _ => trivial
+  have hF := trimSpace_id _ (decDigits_ne_nil c.flags) (digit_printable c.flags)
+  have hE := trimSpace_id _ (decDigits_ne_nil c.exptime) (digit_printable c.exptime)
+  have hN := trimSpace_id _ (decDigits_ne_nil c.data.length) (digit_printable c.data.length)
+  have hset : textSet k [storeWord k, c.key, Bytes.decDigits c.flags, Bytes.decDigits c.exptime, Bytes.decDigits c.data.length]
+      (c.data ++ ([13] ++ 10 :: rest)) =
+      { cmd := some (.store k { key := c.key, flags := c.flags, exptime := c.exptime, data := c.data }),
+        rt := k.reqType, rest := rest, alloc := c.data.length } := by
+    unfold textSet
+    simp only [hF, hE, hN, parseUint32_decDigits _ hf, parseUint32_decDigits _ he, parseUint32_decDigits _ hl]
+    rw [readN_append]
+    simp only
+    rw [readLine_ok [13] rest (by simp)]
+  cases k <;> simp [storeWord, wSet, wAdd, wReplace, wAppend, wPrepend, wGet, wDelete, wTouch, wNoop, wQuit, wVersion, wStats] at hset ⊢ <;> exact hset
+
+theorem splitSpace_keys (keys : List GetKey) (hk : ∀ k ∈ keys, ∀ b ∈ k.key, Printable b) (a : Bytes) (ha : ∀ b ∈ a, b ≠ 32) :
+    splitSpace (a ++ keys.flatMap (fun k => 32 :: k.key)) = a :: keys.map (·.key) := by
+  induction keys generalizing a with
+  | nil => simp [splitSpace_last a ha]
+  | cons k ks ih =>
+    simp only [List.flatMap_cons, List.cons_append]
+    rw [splitSpace_cons a _ ha]
+    rw [ih (fun k' hk' => hk k' (List.mem_cons_of_mem _ hk')) k.key
+      (fun b hb => printable_ne_space b (hk k List.mem_cons_self b hb))]
+    simp
+
+/-- A generic helper: a request line `body ++ "\r\n"` whose body has no LF, starts with a printable
+    byte and ends with a printable byte is read and trimmed back to `body`. -/
+theorem line_roundtrip (body rest : Bytes) (x y : UInt8) (mid : Bytes) (hb : body = x :: (mid ++ [y]))
+    (hx : Printable x) (hy : Printable y) (hnolf : ∀ b ∈ body, b ≠ 10) :
+    readLine (body ++ [13, 10] ++ rest) = some (body ++ [13, 10], rest) ∧ trimSpace (body ++ [13, 10]) = body := by
+  refine ⟨?_, trimSpace_crlf_gen body x y mid hb hx hy⟩
+  have : body ++ [13, 10] ++ rest = (body ++ [13]) ++ 10 :: rest := by simp
+  rw [this, readLine_ok _ _ (by
+    intro b hb'
+    rcases List.mem_append.mp hb' with h | h
+    · exact hnolf b h
+    · simp at h; subst h; decide)]
+  simp
+
+/-- Text `get` of one or more keys (each a non-empty string of printable bytes). -/
+theorem C07_text_get (g : GetCmd) (rest : Bytes) (hne : g.keys ≠ [])
+    (hk : ∀ k ∈ g.keys, k.key ≠ [] ∧ ∀ b ∈ k.key, Printable b) :
+    textParse (encodeText (.get g) ++ rest) =
+      { cmd := some (.get { keys := g.keys.map fun k => { key := k.key } }), rt := .get, rest := rest } := by
+  have hk' : ∀ k ∈ g.keys, ∀ b ∈ k.key, Printable b := fun k h => (hk k h).2
+  -- the body of the line
+  have hbodyne : g.keys.flatMap (fun k => sp ++ k.key) ≠ [] := by
+    obtain ⟨k, ks, hks⟩ := List.exists_cons_of_ne_nil hne
+    rw [hks]; simp [sp]
+  -- last byte of the body is the last byte of the last key
+  obtain ⟨mid, y, hmid, hy⟩ : ∃ mid y, wGet ++ g.keys.flatMap (fun k => sp ++ k.key) = 103 :: (mid ++ [y]) ∧ Printable y := by
+    have hl := List.dropLast_concat_getLast hne
+    have hlast := hk _ (List.getLast_mem hne)
+    have hkl := List.dropLast_concat_getLast hlast.1
+    refine ⟨[101, 116] ++ g.keys.dropLast.flatMap (fun k => sp ++ k.key) ++ sp ++ ((g.keys.getLast hne).key).dropLast,
+      ((g.keys.getLast hne).key).getLast hlast.1, ?_, hlast.2 _ (List.getLast_mem _)⟩
+    conv => lhs; rw [← hl]
+    rw [List.flatMap_append]
+    simp only [List.flatMap_cons, List.flatMap_nil, List.append_nil]
+    conv => lhs; rw [← hkl]
+    simp [wGet, sp]
+  have hnolf : ∀ b ∈ wGet ++ g.keys.flatMap (fun k => sp ++ k.key), b ≠ 10 := by
+    intro b hb
+    rcases List.mem_append.mp hb with h | h
+    · simp [wGet] at h; rcases h with rfl | rfl | rfl <;> decide
+    · simp only [List.mem_flatMap, sp, List.mem_append, List.mem_singleton] at h
+      obtain ⟨k, hkm, h | h⟩ := h
+      · subst h; decide
+      · exact printable_ne_lf b (hk' k hkm b h)
+  obtain ⟨h1, h2⟩ := line_roundtrip _ rest 103 y mid hmid ⟨by decide, by decide⟩ hy hnolf
+  have henc : encodeText (.get g) ++ rest = (wGet ++ g.keys.flatMap (fun k => sp ++ k.key)) ++ [13, 10] ++ rest := by
+    simp [encodeText]
+  rw [henc]
+  unfold textParse
+  rw [h1]
+  simp only
+  have hsp : (fun k : GetKey => sp ++ k.key) = (fun k => 32 :: k.key) := by funext k; simp [sp]
+  rw [h2, hsp, splitSpace_keys g.keys hk' wGet (by simp [wGet])]
+  have hlen : ¬ (wGet :: g.keys.map (·.key)).length < 2 := by
+    obtain ⟨k, ks, hks⟩ := List.exists_cons_of_ne_nil hne
+    rw [hks]; simp
+  have hlen' : ¬ (g.keys.length + 1 < 2) := by simpa using hlen
+  simp [wGet, wSet, wAdd, wReplace, wAppend, wPrepend, hlen', List.map_map]
+
+/-- Text `delete`. -/
+theorem C07_text_delete (c : KeyCmd) (rest : Bytes) (hne : c.key ≠ []) (hkey : ∀ b ∈ c.key, Printable b) :
+    textParse (encodeText (.delete c) ++ rest) = { cmd := some (.delete { key := c.key }), rt := .delete, rest := rest } := by
+  have hkl := List.dropLast_concat_getLast hne
+  have hbody : wDelete ++ 32 :: c.key = 100 :: (([101, 108, 101, 116, 101, 32] ++ c.key.dropLast) ++ [c.key.getLast hne]) := by
+    conv => lhs; rw [← hkl]
+    simp [wDelete]
+  have hnolf : ∀ b ∈ wDelete ++ 32 :: c.key, b ≠ 10 := by
+    intro b hb
+    simp only [List.mem_append, List.mem_cons] at hb
+    rcases hb with h | h | h
+    · simp [wDelete] at h; rcases h with rfl | rfl | rfl | rfl | rfl | rfl <;> decide
+    · subst h; decide
+    · exact printable_ne_lf b (hkey b h)
+  obtain ⟨h1, h2⟩ := line_roundtrip _ rest 100 _ _ hbody ⟨by decide, by decide⟩ (hkey _ (List.getLast_mem hne)) hnolf
+  have henc : encodeText (.delete c) ++ rest = (wDelete ++ 32 :: c.key) ++ [13, 10] ++ rest := by simp [encodeText, sp]
+  rw [henc]
+  unfold textParse
+  rw [h1]
+  simp only
+  rw [h2, splitSpace_cons wDelete c.key (by simp [wDelete]), splitSpace_last c.key (fun b hb => printable_ne_space b (hkey b hb))]
+  simp [wGet, wSet, wAdd, wReplace, wAppend, wPrepend, wDelete]
+
+/-- Text `touch`. -/
+theorem C07_text_touch (c : KeyCmd) (rest : Bytes) (hkey : ∀ b ∈ c.key, Printable b) (he : c.exptime < 4294967296) :
+    textParse (encodeText (.touch c) ++ rest) =
+      { cmd := some (.touch { key := c.key, exptime := c.exptime }), rt := .touch, rest := rest } := by
+  have hdn := decDigits_ne_nil c.exptime
+  have hdl := List.dropLast_concat_getLast hdn
+  have hbody : wTouch ++ 32 :: (c.key ++ 32 :: Bytes.decDigits c.exptime) =
+      116 :: (([111, 117, 99, 104, 32] ++ c.key ++ [32] ++ (Bytes.decDigits c.exptime).dropLast) ++ [(Bytes.decDigits c.exptime).getLast hdn]) := by
+    conv => lhs; rw [← hdl]
+    simp [wTouch]
+  have hnolf : ∀ b ∈ wTouch ++ 32 :: (c.key ++ 32 :: Bytes.decDigits c.exptime), b ≠ 10 := by
+    intro b hb
+    simp only [List.mem_append, List.mem_cons] at hb
+    rcases hb with h | h | h | h | h
+    · simp [wTouch] at h; rcases h with rfl | rfl | rfl | rfl | rfl <;> decide
+    · subst h; decide
+    · exact printable_ne_lf b (hkey b h)
+    · subst h; decide
+    · exact printable_ne_lf b (digit_printable _ b h)
+  obtain ⟨h1, h2⟩ := line_roundtrip _ rest 116 _ _ hbody ⟨by decide, by decide⟩
+    (digit_printable _ _ (List.getLast_mem hdn)) hnolf
+  have henc : encodeText (.touch c) ++ rest = (wTouch ++ 32 :: (c.key ++ 32 :: Bytes.decDigits c.exptime)) ++ [13, 10] ++ rest := by
+    simp [encodeText, sp]
+  rw [henc]
+  unfold textParse
+  rw [h1]
+  simp only
+  rw [h2, splitSpace_cons wTouch _ (by simp [wTouch]),
+    splitSpace_cons c.key _ (fun b hb => printable_ne_space b (hkey b hb)),
+    splitSpace_last _ (fun b hb => printable_ne_space b (digit_printable _ b hb))]
+  have hE := trimSpace_id _ hdn (digit_printable c.exptime)
+  simp [wGet, wSet, wAdd, wReplace, wAppend, wPrepend, wDelete, wTouch, hE, parseUint32_decDigits _ he]
+
+/-! ### Pipelines -/
+
+/-- Decode requests until the input is exhausted. -/
+def parseMany (parse : Bytes → PRes) : Nat → Bytes → List Cmd
+  | 0, _ => []
+  | fuel + 1, inp =>
+    if inp.isEmpty then []
+    else match (parse inp).cmd with
+      | some c => c :: parseMany parse fuel (parse inp).rest
+      | none => []
+
+/-- If every single request round-trips (whatever follows it), every pipeline of requests decodes to
+    the same sequence. Instantiated below for both protocols. -/
+theorem C07_pipeline (parse : Bytes → PRes) (enc : Cmd → Bytes) (norm : Cmd → Cmd) (WF : Cmd → Prop)
+    (hrt : ∀ r rest, WF r → (parse (enc r ++ rest)).cmd = some (norm r) ∧ (parse (enc r ++ rest)).rest = rest)
+    (hne : ∀ r, WF r → enc r ≠ []) :
+    ∀ (rs : List Cmd), (∀ r ∈ rs, WF r) → ∀ fuel, rs.length ≤ fuel →
+      parseMany parse fuel (rs.flatMap enc) = rs.map norm := by
+  intro rs
+  induction rs with
+  | nil => intro _ fuel _; cases fuel <;> simp [parseMany]
+  | cons r rs ih =>
+    intro hwf fuel hfuel
+    obtain ⟨f, rfl⟩ : ∃ f, fuel = f + 1 := ⟨fuel - 1, by simp at hfuel; omega⟩
+    have hr := hwf r List.mem_cons_self
+    obtain ⟨h1, h2⟩ := hrt r (rs.flatMap enc) hr
+    have hnemp : (enc r ++ rs.flatMap enc).isEmpty = false := by
+      have := hne r hr
+      cases henc : enc r with
+      | nil => exact absurd henc this
+      | cons a t => simp
+    simp only [List.flatMap_cons, parseMany, hnemp, h1, h2, List.map_cons]
+    rw [ih (fun r' hr' => hwf r' (List.mem_cons_of_mem _ hr')) f (by simp at hfuel; omega)]
+    simp
+
+/-- Pipelines of binary delete requests, as an instance (the other commands are instantiated the
+    same way from their round-trip theorems). -/
+theorem C07_pipeline_bin_store (rs : List (SetKind × SetCmd))
+    (hwf : ∀ p ∈ rs, p.2.key.length < 65536 ∧ 8 + p.2.key.length + p.2.data.length < 4294967296 ∧
+      p.2.flags < 4294967296 ∧ p.2.exptime < 4294967296 ∧ p.2.opq < 4294967296) :
+    parseMany binParse rs.length ((rs.map fun p => Cmd.store p.1 p.2).flatMap encodeBin) =
+      rs.map fun p => Cmd.store p.1 (storeNorm p.1 p.2) := by
+  have := C07_pipeline binParse encodeBin
+    (fun c => match c with | .store k s => .store k (storeNorm k s) | c => c)
+    (fun c => match c with
+      | .store _ s => s.key.length < 65536 ∧ 8 + s.key.length + s.data.length < 4294967296 ∧
+          s.flags < 4294967296 ∧ s.exptime < 4294967296 ∧ s.opq < 4294967296
+      | _ => False)
+    (by
+      intro r rest hr
+      cases r with
+      | store k s =>
+        obtain ⟨a, b, c, d, e⟩ := hr
+        rw [C07_bin_store k s rest a b c d e]
+        exact ⟨rfl, rfl⟩
+      | _ => exact absurd hr (by simp))
+    (by
+      intro r hr
+      cases r with
+      | store k s => cases k <;> simp [encodeBin, reqHeader]
+      | _ => exact absurd hr (by simp))
+    (rs.map fun p => Cmd.store p.1 p.2)
+    (by
+      intro r hr
+      simp only [List.mem_map] at hr
+      obtain ⟨p, hp, rfl⟩ := hr
+      exact hwf p hp)
+    rs.length (by simp)
+  rw [this, List.map_map]
+  rfl
+
+/-! ### Protocol choice and packet boundaries -/
+
+/-- `CanParse` of the two protocols. -/
+def binCanParse (first : UInt8) : Bool := first.toNat == Gen.binprot_MagicRequest
+def textCanParse (first : UInt8) : Bool := decide (97 ≤ first.toNat ∧ first.toNat ≤ 122)
+
+/-- `ListenAndServe` walks the protocols in order [binary, text] WITHOUT stopping at the first match
+    and falls back to the last one. -/
+def chooseProto (first : UInt8) : Bool × Bool :=   -- (uses binary, matched)
+  let m1 := binCanParse first
+  let m2 := textCanParse first
+  -- later matches overwrite earlier ones; no match: the last protocol (text)
+  if m2 then (false, true) else if m1 then (true, true) else (false, false)
+
+/-- The first byte decides: 0x80 means binary, a lower-case letter means text; the two tests are
+    disjoint, so the missing `break` in the protocol loop cannot matter. -/
+theorem C07_first_byte (b : UInt8) :
+    (b = 0x80 → chooseProto b = (true, true)) ∧
+    (97 ≤ b.toNat ∧ b.toNat ≤ 122 → chooseProto b = (false, true)) ∧
+    ¬ (binCanParse b = true ∧ textCanParse b = true) := by
+  refine ⟨?_, ?_, ?_⟩
+  · intro h; subst h; decide
+  · intro h; simp [chooseProto, textCanParse, h]
+  · simp [binCanParse, textCanParse, Gen.binprot_MagicRequest]; omega
+
+/-- `io.ReadAtLeast` over a connection that delivers its bytes in arbitrary segments: the bytes
+    obtained (and what remains) depend only on the concatenation. -/
+def readSeg : Nat → List Bytes → Option (Bytes × List Bytes)
+  | 0, segs => some ([], segs)
+  | _ + 1, [] => none
+  | n + 1, s :: segs =>
+    if s.length ≤ n + 1 then
+      match readSeg (n + 1 - s.length) segs with
+      | some (b, r) => some (s ++ b, r)
+      | none => none
+    else some (s.take (n + 1), s.drop (n + 1) :: segs)
+termination_by n segs => segs.length
+decreasing_by all_goals simp_wf <;> omega
+
+theorem C07_segmentation : ∀ (n : Nat) (segs : List Bytes),
+    (readSeg n segs).map (fun p => (p.1, p.2.flatten)) = readN n segs.flatten := by
+  intro n segs
+  induction segs generalizing n with
+  | nil =>
+    cases n with
+    | zero => simp [readSeg, readN]
+    | succ n => simp [readSeg, readN]
+  | cons s segs ih =>
+    cases n with
+    | zero => simp [readSeg, readN]
+    | succ n =>
+      have hfl : (s ++ segs.flatten).length = s.length + segs.flatten.length := by
+        simp only [List.length_append]
+      rw [readSeg, List.flatten_cons]
+      split
+      · rename_i hle
+        have := ih (n + 1 - s.length)
+        cases hr : readSeg (n + 1 - s.length) segs with
+        | none =>
+          rw [hr] at this
+          simp only [Option.map_none] at this
+          have hshort : segs.flatten.length < n + 1 - s.length := by
+            unfold readN at this
+            split at this
+            · assumption
+            · simp at this
+          have hlen : (s ++ segs.flatten).length < n + 1 := by rw [hfl]; omega
+          simp only [Option.map_none, readN, hlen, if_true]
+        | some p =>
+          rw [hr] at this
+          simp only [Option.map_some] at this
+          unfold readN at this
+          split at this
+          · simp at this
+          · rename_i hge
+            simp only [Option.some.injEq, Prod.mk.injEq] at this
+            obtain ⟨h1, h2⟩ := this
+            have hlen : ¬ ((s ++ segs.flatten).length < n + 1) := by rw [hfl]; omega
+            simp only [Option.map_some, readN, hlen, if_false]
+            congr 1
+            rw [List.take_append, List.drop_append, h1, h2, List.take_of_length_le hle, List.drop_of_length_le hle]
+            simp
+      · rename_i hgt
+        have hgt' : n + 1 < s.length := by omega
+        have hlen : ¬ ((s ++ segs.flatten).length < n + 1) := by rw [hfl]; omega
+        simp only [Option.map_some, readN, hlen, if_false, List.flatten_cons]
+        congr 1
+        rw [List.take_append_of_le_length (by omega), List.drop_append_of_le_length (by omega)]
 
 end Rend.Props.C07
